@@ -143,7 +143,8 @@ func forPlan(c *core.Ctx, p plan, withDyn bool, emit func(i int, name string, ge
 	if p.pairs {
 		np = (len(alpha) + 1) * (len(alpha) + 1)
 	}
-	total := nw + nm + np
+	sw := univ.LengthSweep(md, univ.SweepLengths(c.Thorough()))
+	total := nw + nm + np + len(sw)
 	const chunk = 128
 	c.Par((total+chunk-1)/chunk, func(ci int) {
 		hi := (ci + 1) * chunk
@@ -164,6 +165,15 @@ func forPlan(c *core.Ctx, p plan, withDyn bool, emit func(i int, name string, ge
 			case i < nw+nm:
 				slots := univ.PickSlots(alpha, univ.TupleAt(len(alpha), p.k, i-nw, nil), nil)
 				name = "msg" + univ.Names(slots)
+				b, err := proto.MarshalOptions{AllowPartial: true, Deterministic: true}.Marshal(g.Build(slots).Interface())
+				og = fmt.Sprintf("enc=%x err=%v|", b, err != nil) + observe(g, b, false)
+				if withDyn {
+					b2, err2 := proto.MarshalOptions{AllowPartial: true, Deterministic: true}.Marshal(d.Build(slots).Interface())
+					od = fmt.Sprintf("enc=%x err=%v|", b2, err2 != nil) + observe(d, b2, false)
+				}
+			case i >= nw+nm+np:
+				slots := sw[i-nw-nm-np]
+				name = "sweep" + univ.SweepName(slots)
 				b, err := proto.MarshalOptions{AllowPartial: true, Deterministic: true}.Marshal(g.Build(slots).Interface())
 				og = fmt.Sprintf("enc=%x err=%v|", b, err != nil) + observe(g, b, false)
 				if withDyn {
